@@ -103,6 +103,13 @@ def gen(ctx, rnd, quick):
                         spk = (b"\x00\x20" + P.sha256(scr)) if segwit else scr
                         tx_, ftx_ = lock_tx(spk, [scr] if segwit else [], ver, lock, [a, b] if idx == 0 else [b, a], idx)
                         cases.append((S.spend_line(tx_, ftx_, R.STD & ~(1 << FB["CLEANSTACK"])), {"kind": "custom", "label": "locktime-" + name, "flags": R.STD & ~(1 << FB["CLEANSTACK"])}))
+    # the amount comes from the referenced output of --txin, whatever amount prefix --tx carries
+    for kind in ("p2wpkh", "p2wsh", "p2sh-p2wpkh", "p2sh-p2wsh", "p2pkh", "p2tr-key"):
+        for am in (["0.5"], ["0.00000001"], ["0"], ["21000000"], ["1", "2", "3"]):
+            s = S.build(rnd, kind, {"n_in": 1})
+            cases.append((S.spend_line(s.tx, s.txin, R.STD, amounts=am), {"kind": kind, "label": "amount-prefix", "built_valid": s.valid, "flags": R.STD}))
+        s = S.build(rnd, kind, {"n_in": 1 if kind.startswith("p2tr") else 3, "idx": 0 if kind.startswith("p2tr") else 1})
+        cases.append((S.spend_line(s.tx, s.txin, R.STD, amounts=["0.5", "0.25"]), {"kind": kind, "label": "amount-prefix", "built_valid": s.valid, "flags": R.STD}))
     # hand-built scripts: the rules around the scripts rather than inside them
     def add(name, spk, ss=b"", wit=(), flags=R.STD, finding=None, **kw):
         tx, ftx = S.custom(rnd, spk, ss, wit, **kw)
